@@ -154,6 +154,8 @@ fn real_main() -> i32 {
         "earlyops" => families::earlyops(&a),
         "cutwrite" => families::cutwrite(&a),
         "crossid" => families::crossid(&a),
+        "badopts" => families::badopts(&a),
+        "blockcmp" => families::blockcmp(&a),
         "chunk" => families::chunk(&a),
         "fuzz" => families::fuzz(&a),
         "endings" => families::endings(&a),
